@@ -1152,10 +1152,19 @@ class Interp:
         return self.exec_block_returning(f["body"], env)
 
     def exec_block_returning(self, body, env):
+        # an early return inside an inlined callee skips the rest of the callee, not of its caller: the path condition it
+        # added ends with the call
+        saved = list(self.guards)
+        depth = getattr(self, "_call_depth", 0)
+        self._call_depth = depth + 1
         try:
             self.exec(body, env)
         except _Return as r:
             return r.value
+        finally:
+            self._call_depth = depth
+            if depth > 0:
+                self.guards = saved
         return None
 
     # Eigen vocabulary ---------------------------------------------------------
@@ -2047,7 +2056,9 @@ class Interp:
             return
         if len(body) == 1 and body[0].get("k") == "return" and s.get("else") is None:
             rv = body[0].get("e")
-            self.effects.append(Effect("<return>", (), "guard-return", self.ev(rv, env) if rv is not None else None, [(pp(s["cond"]), True)], s.get("line")))
+            ge = Effect("<return>", (), "guard-return", self.ev(rv, env) if rv is not None else None, [(pp(s["cond"]), True)], s.get("line"))
+            ge.cond = c       # the condition as interpreted (sizes of member buffers appear as <member>.rows / .size symbols)
+            self.effects.append(ge)
             self.guards.append((pp(s["cond"]), False))
             return
         ex_ = Unsupported("undecided branch %s (line %s)" % (pp(s["cond"])[:80], s.get("line")))
